@@ -1,5 +1,5 @@
 import io
-from impl import op, hx, unhx, err, mkfile
+from impl import op, hx, unhx, err, mkfile, CStream
 import register_crypto_plugin  # noqa: F401  (registers the appnote plug-in exactly as the appnotes do)
 from bec2format.bf3file import Bf3Component, Bf3File, BF3_FILE_SIG
 from bec2format.bytes_reader import BytesReader
@@ -88,7 +88,7 @@ def write(k, cs):
 
 
 def to_text(binary: bytes, comments=None) -> str:
-    s = io.StringIO()
+    s = CStream()
     Bf3File.write_bf3_format(s, comments or {}, binary)
     return s.getvalue()
 
@@ -96,7 +96,7 @@ def to_text(binary: bytes, comments=None) -> str:
 @op("bf3.read")
 def read(chk, k, b):
     try:
-        f = Bf3File.read_file(io.StringIO(to_text(unhx(b))), chk == "1", unhx(k))
+        f = Bf3File.read_file(CStream(to_text(unhx(b))), chk == "1", unhx(k))
         return "ok " + show_comps(f.components)
     except Exception as e:
         return err(e)
@@ -138,7 +138,7 @@ def tmp_path():
 
 @op("text.write")
 def text_write(c, r):
-    s = io.StringIO()
+    s = CStream()
     Bf3File.write_bf3_format(s, parse_comments(c), unhx(r))
     return "ok " + show_str(s.getvalue())
 
@@ -146,7 +146,7 @@ def text_write(c, r):
 @op("text.parse")
 def text_parse(t):
     try:
-        rdr, cm = Bf3File.parse_bf3_file(io.StringIO(parse_str(t)))
+        rdr, cm = Bf3File.parse_bf3_file(CStream(parse_str(t)))
         return "ok " + show_comments(cm) + " " + hx(rdr.getvalue())
     except Exception as e:
         return err(e)
@@ -180,8 +180,8 @@ def text_crlf(t):
 def read_text(chk, k, text, path):
     if not path:
         if chk == "1" and len(text) % 2:
-            return Bf3File.read_file(io.StringIO(text), session_key=unhx(k))      # the MAC check is the default
-        return Bf3File.read_file(io.StringIO(text), chk == "1", unhx(k))
+            return Bf3File.read_file(CStream(text), session_key=unhx(k))      # the MAC check is the default
+        return Bf3File.read_file(CStream(text), chk == "1", unhx(k))
     p = tmp_path()
     try:
         with open(p, "wb") as f:
@@ -211,7 +211,7 @@ def readpath(chk, k, t):
 
 def write_text(f, key, path):
     if not path:
-        s = io.StringIO()
+        s = CStream()
         f.write_file(s, key)
         return s.getvalue()
     p = tmp_path()
@@ -403,7 +403,7 @@ def prop_c03(off, k, cs):
     fobj = mkfile({}, parse_comps(cs))
     try:
         fobj.to_binary(off, key)
-        fobj.write_file(io.StringIO(), key)
+        fobj.write_file(CStream(), key)
     except Exception as e:
         return f"FAIL writing the object a first time raises {type(e).__name__}"
     live = fobj.components
@@ -457,7 +457,7 @@ def prop_c03(off, k, cs):
         if got != out:
             return f"FAIL components handed over as {what}: {len(got)} bytes written instead of the {len(out)} bytes of the same list"
     # the text writer with an explicit session key writes the same container after the signature
-    s = io.StringIO()
+    s = CStream()
     mkfile({}, parse_comps(cs)).write_file(s, key)
     lines = s.getvalue().split("\n")
     body = bytes.fromhex("".join(lines[lines.index("") + 1:]))
@@ -544,7 +544,7 @@ def prop_c04bf3(k, c, cs, what, stride, offset):
         return to_text(b, comments)
 
     def read(t):
-        return Bf3File.read_file(io.StringIO(t), True, key)
+        return Bf3File.read_file(CStream(t), True, key)
 
     def same(f, text_prefix=False):
         if text_prefix:      # a cut inside the comment block cannot be detected by MACs: compare components only
@@ -560,7 +560,7 @@ def prop_c04bf3(k, c, cs, what, stride, offset):
             k2[bit // 8] ^= 1 << (bit % 8)
             n += 1
             try:
-                f = Bf3File.read_file(io.StringIO(text_of(binary)), True, bytes(k2))
+                f = Bf3File.read_file(CStream(text_of(binary)), True, bytes(k2))
             except Exception:
                 continue
             bad = same_file(f, comments, comps)
@@ -573,7 +573,7 @@ def prop_c04bf3(k, c, cs, what, stride, offset):
 @op("prop.c03text")
 def prop_c03text(c, r):
     comments, raw = parse_comments(c), unhx(r)
-    s = io.StringIO()
+    s = CStream()
     Bf3File.write_bf3_format(s, comments, raw)
     lines = s.getvalue().split("\n")
     want = [f"{k}: {v}" for k, v in comments.items()]
